@@ -11,6 +11,9 @@
   * a NameIDPolicy carrying an SPNameQualifier: "the policy-configured format" may be the
     requester's or the qualifier's;
   * the caller hands in a ready-made NameID (`name_id=`): its format is the caller's business;
+  * the caller presets Method, Recipient or InResponseTo of the confirmation in `farg=`: that field is
+    the caller's; every field NOT preset must be the default (the expiry is never the caller's);
+  * `status=`: silent (only the end-to-end precondition asks for Success);
   * no Response is created at all (an exception leaves create_authn_response).
 -/
 import PysamlModel.Model.Idp
@@ -62,14 +65,38 @@ def policyOf (cfg : Cfg) (a : Args W) : Restrictions := a.releasePolicy.getD cfg
 def lifetimeOf (d : Defaults) (cfg : Cfg) (a : Args W) : Int :=
   specLifetime d (policyOf cfg a) a.spEntityId (cfg.ras.lookup a.spEntityId)
 
-def confOk (a : Args W) (life : Int) (c : Conf) : Bool :=
-  c.method == .bearer && c.recipient == some a.destination && c.irt == some a.inResponseTo &&
+/-- What the caller's `farg=` tree presets (a preset field is the caller's business, like `name_id=`). -/
+def preset {α : Type} (a : Args W) (field : Farg → Option α) : Bool := (a.farg.bind field).isSome
+
+/-- Recipient / InResponseTo of one confirmation, each demanded unless the caller preset it; the expiry
+    is demanded always (the property ties it to the policy; the code overwrites a preset one). -/
+def confDataOk (a : Args W) (life : Int) (c : Conf) : Bool :=
+  (preset a (·.recipient) || c.recipient == some a.destination) &&
+  (preset a (·.irt) || c.irt == some a.inResponseTo) &&
   c.nooa == some (a.now + life)
 
 /-- "carries bearer confirmation whose Recipient … InResponseTo … expiry …": there is a bearer
-    confirmation and every bearer confirmation carries exactly these data (other methods: silent). -/
+    confirmation and every bearer confirmation carries exactly these data (other methods: silent).
+    When the caller presets the Method, the confirmation(s) made — whatever their method — carry them. -/
 def confsOk (a : Args W) (life : Int) (cs : List Conf) : Bool :=
-  cs.any (·.method == .bearer) && cs.all (fun c => c.method != .bearer || confOk a life c)
+  let relevant (c : Conf) : Bool := preset a (·.method) || c.method == .bearer
+  cs.any relevant && cs.all (fun c => !relevant c || confDataOk a life c)
+
+/-- The success status the SP model tests for. -/
+def successUri : String := "urn:oasis:names:tc:SAML:2.0:status:Success"
+
+/-- The caller's shaping arguments leave the confirmation acceptable to the requester: Method not preset
+    or bearer, Recipient / InResponseTo / NotBefore not preset, an Address only where the SP is not told
+    the client address; `status=` absent or Success. -/
+def shapingNeutral (d : Defaults) (a : Args W) (convInfo : Bool) : Bool :=
+  (match a.farg with
+   | none => true
+   | some f =>
+     (match f.method with | none => true | some m => m == d.bearer) &&
+     f.recipient.isNone && f.irt.isNone && f.notBefore.isNone && (!truthy f.address || !convInfo)) &&
+  (match a.status with
+   | none => true
+   | some st => st.top == successUri)
 
 /-- the format the request asks for -/
 def requestedFormat (a : Args W) : Option String :=
@@ -162,7 +189,7 @@ def e2ePre (d : Defaults) (cfg : Cfg) (a : Args W) (s : SpSide) : Bool :=
   let signR := demanded a.signResponse cfg.signResponse
   let signA := demanded a.signAssertion cfg.signAssertion
   let skew : Int := s.cfg.skew
-  s.trusts && s.env.bindingOk && s.env.asynchop &&
+  s.trusts && s.env.bindingOk && s.env.asynchop && shapingNeutral d a s.env.convInfo &&
   a.spEntityId != "" && Sp.pyStrip a.spEntityId == s.cfg.entityId &&
   a.destination != "" && s.cfg.returnAddrs.contains a.destination &&
   (s.env.outstanding.lookup a.inResponseTo).isSome &&
